@@ -108,10 +108,12 @@ pub struct RunOpts {
     pub op_budget_ms: u64,
     /// evaluate the model's executable invariant after every update
     pub check_inv: bool,
+    /// run the independent decoder at every byte comparison point and at every stats call
+    pub decoder: bool,
 }
 impl Default for RunOpts {
     fn default() -> Self {
-        RunOpts { model: true, cmp_every: None, cmp_end: true, stop_first: true, op_budget_ms: 20_000, check_inv: false }
+        RunOpts { model: true, cmp_every: None, cmp_end: true, stop_first: true, op_budget_ms: 20_000, check_inv: false, decoder: false }
     }
 }
 
@@ -123,6 +125,16 @@ pub struct Outcome {
 }
 
 type Oracle = BTreeMap<Vec<u8>, Vec<u8>>;
+
+pub fn sig_of(kt: Kt) -> [u8; 8] {
+    match kt {
+        Kt::Str => *b"string\0\0",
+        Kt::Bytes => *b"bytes\0\0\0",
+        Kt::U64 => *b"u64_le\0\0",
+        Kt::I64 => *b"i64_le\0\0",
+        Kt::Vu64 => *b"u64_le\0\0",
+    }
+}
 
 fn sorted_order(keys: &[Vec<u8>]) -> Vec<usize> {
     let mut idx: Vec<usize> = (0..keys.len()).collect();
@@ -174,6 +186,7 @@ pub fn run_seq(seq: &Seq, dir: &Path, driver: &mut Option<Driver>, opts: &RunOpt
     let mut model_maps: BTreeMap<usize, bool> = BTreeMap::new(); // map id -> cmp allowed
     let mut cur: usize = 0;
     let mut dead = false;
+    let mut prev_dec: BTreeMap<usize, crate::decoder::Decoded> = BTreeMap::new();
 
     let mut all_ops: Vec<Op> = vec![Op::Map(0, seq.kt, seq.params)];
     all_ops.extend(seq.ops.iter().cloned());
@@ -355,6 +368,17 @@ pub fn run_seq(seq: &Seq, dir: &Path, driver: &mut Option<Driver>, opts: &RunOpt
                 _ => {}
             }
         }
+        if opts.decoder && matches!(op, Op::Stats) && !dead {
+            let _ = catch_unwind(AssertUnwindSafe(|| imp.exec(&Op::Flush)));
+            if let Some(slot) = imp.maps.get(imp.cur) {
+                let dec = crate::decoder::decode(dir, &slot.name, &sig_of(slot.kt));
+                if dec.errors.is_empty() {
+                    oracle_want = Some(dec.stats_line());
+                } else {
+                    diffs.push(Diff { idx, facet: "decoder", op: op.text(), got: dec.errors[0].clone(), want: "consistent structure".into() });
+                }
+            }
+        }
         transcript.push(format!("{} => {}", op.text(), got));
         if let Some(ow) = &oracle_want {
             let same = if let Op::Iter(_) = op {
@@ -415,6 +439,31 @@ pub fn run_seq(seq: &Seq, dir: &Path, driver: &mut Option<Driver>, opts: &RunOpt
                         cov.cmps += 1;
                         if a != "htx=ok key=ok val=ok" {
                             diffs.push(Diff { idx, facet: "bytes", op: format!("cmp m{} after {}", id, op.text()), got: a, want: "htx=ok key=ok val=ok".into() });
+                        }
+                    }
+                    if opts.decoder {
+                        for (id, allowed) in model_maps.clone() {
+                            if !allowed {
+                                continue;
+                            }
+                            let Some(slot) = imp.maps.iter().find(|m| m.name == format!("m{}", id)) else { continue };
+                            let dec = crate::decoder::decode(dir, &slot.name, &sig_of(slot.kt));
+                            if let Some(e) = dec.errors.first() {
+                                diffs.push(Diff { idx, facet: "decoder", op: format!("decode m{} after {}", id, op.text()), got: e.clone(), want: "consistent structure".into() });
+                            } else if let Some(o) = oracles.get(&id) {
+                                let mut got: Vec<(Vec<u8>, Vec<u8>)> = dec.entries.clone();
+                                got.sort();
+                                let want: Vec<(Vec<u8>, Vec<u8>)> = o.iter().map(|(k, v)| (k.clone(), v.clone())).collect();
+                                if got != want {
+                                    diffs.push(Diff { idx, facet: "decoder", op: format!("decode m{} after {}", id, op.text()), got: format!("{} entries decoded", got.len()), want: format!("{} entries, equal to the map contents", want.len()) });
+                                }
+                            }
+                            if let Some(prev) = prev_dec.get(&id) {
+                                if let Some(e) = crate::decoder::extend_rule(prev, &dec) {
+                                    diffs.push(Diff { idx, facet: "decoder", op: format!("extend-only-if-needed m{} after {}", id, op.text()), got: e, want: "file extended only when no free slot fits".into() });
+                                }
+                            }
+                            prev_dec.insert(id, dec);
                         }
                     }
                     for e in ["key", "val"] {
